@@ -54,11 +54,20 @@ FAMILIES = {
                 Versions=[1], Gaps=[1, 2], InitCoins=3, MaxHeight=4),
     "SQ3": dict(BASE, Tenants=["t1"], Providers=["p1"], Auditors=[], DSeqs=[1], GSeqs=[1, 2], OSeqs=[1],
                 GroupChoices="GroupChoicesS2", DepositChoices=[2], PriceChoices=[1], AmountChoices=[1],
-                Versions=[1], Gaps=[1, 2], InitCoins=3, MaxHeight=4),
+                Versions=[1], Gaps=[1, 2], InitCoins=3, MaxHeight=4, Variants=True),
     # two groups x two order generations, one provider: leases at mirrored (gseq, oseq) coordinates
     "SQ5": dict(BASE, Tenants=["t1"], Providers=["p1"], Auditors=[], DSeqs=[1], GSeqs=[1, 2], OSeqs=[1, 2],
                 GroupChoices="GroupChoicesS2", DepositChoices=[4], PriceChoices=[1], AmountChoices=[],
                 Versions=[1], Gaps=[1], InitCoins=6, MaxHeight=2),
+    # two deployments whose sequence numbers agree modulo 2^32 (table entries 1 and 6), a tenant that is also a registered
+    # provider (self-bid, also spelled in upper case), deposits below the minimum, zero / too high prices, coins in a
+    # foreign denomination: unusual-but-valid inputs, nearly all of which must be rejected
+    "SQ6": dict(BASE, Tenants=["t1"], Providers=["p1"], Auditors=[], DSeqs=[1, 6], GSeqs=[1], OSeqs=[1],
+                GroupChoices="GroupChoicesS", DepositChoices=[1, 2], PriceChoices=[0, 1, 3], AmountChoices=[1],
+                BidMinDeposit=2, BidDepositChoices=[1, 2], Versions=[1], Gaps=[], InitCoins=6, MaxHeight=1, Variants=True),
+    "SB": dict(BASE, Tenants=["t1"], Providers=["t1"], Auditors=[], DSeqs=[1], GSeqs=[1], OSeqs=[1],
+               GroupChoices="GroupChoicesS", DepositChoices=[2], PriceChoices=[1], AmountChoices=[],
+               Versions=[1], Gaps=[], InitCoins=4, MaxHeight=1, Variants=True),
     # auditor lists: every (all-of, any-of) shape x attestations of two auditors
     "RA": dict(BASE, Tenants=["t1"], Providers=["p1"], Auditors=["a1", "a2"], DSeqs=[1], GSeqs=[1], OSeqs=[1],
                GroupChoices="GroupChoicesRA", DepositChoices=[3], PriceChoices=[1], AmountChoices=[], AttrChoices="AttrChoicesRA",
@@ -96,13 +105,13 @@ QUICK = {"C01": ["SQ1", "SQ3", "A", "E", "E3b"], "C02": ["E", "E3q", "A", "S"], 
          "C07": ["R", "RX", "E", "A"], "C08": ["RX", "RA", "R"], "C16": ["SQ1", "SQ2", "SQ3", "R"]}
 # every property's quick tier also sees every small exhaustive world (a change often shows only in a world built for
 # another property: mirrored coordinates, a bystander account, two leases of one provider)
-SMALL = ["SQ3", "SQ5", "RX", "RA", "E3b"]
+SMALL = ["SQ3", "SQ5", "SQ6", "SB", "RX", "RA", "E3b"]
 for _p in QUICK:
     QUICK[_p] = QUICK[_p] + [f for f in SMALL if f not in QUICK[_p]]
 THOROUGH = {"C01": ["SX", "E", "EL", "S", "A", "B"], "C02": ["SX", "E", "E3q", "EL", "A", "S"], "C03": ["SX", "E", "EL", "S", "A"],
             "C04": ["SX", "SQ3", "SQ5", "S", "A", "B"], "C05": ["SX", "SQ3", "SQ5", "S", "A", "B"], "C06": ["SX", "RX", "E", "B", "R", "S"],
             "C07": ["SX", "RX", "R", "S", "A"], "C08": ["RX", "RA", "SX", "R"], "C16": ["SX", "RX", "SQ3", "S", "A", "R", "B"]}
-EXHAUSTIVE = {"SX", "SQ1", "SQ2", "SQ3", "SQ5", "RX", "RA", "E", "E3", "E3q", "E3b"}
+EXHAUSTIVE = {"SX", "SQ1", "SQ2", "SQ3", "SQ5", "SQ6", "SB", "RX", "RA", "E", "E3", "E3q", "E3b"}
 PAR = max(2, min(8, vlib.NCPU // 2))     # concurrent harness processes / J3 JVMs per family
 FAMILY_PAR = 2                           # families in flight at a time
 ROUNDTRIPS = 3        # per harness shard: states at which the genesis export/import round trip is recorded
@@ -152,6 +161,7 @@ def mc_cfg(fam, sim, depth):
     lines.append("  MaxHeight = %d" % (1000 if sim else c["MaxHeight"]))
     lines.append("  MaxSteps = %d" % (depth if sim else 60))
     lines.append("  OnlyOK = %s" % ("TRUE" if sim else "FALSE"))
+    lines.append("  Variants = %s" % ("TRUE" if c.get("Variants") else "FALSE"))
     lines.append("INVARIANTS %s %s" % (J1_INVS, "ExportNode" if sim else "ExportNodeEdges"))
     lines.append("PROPERTIES %s" % J1_PROPS)
     lines.append("CHECK_DEADLOCK FALSE")
@@ -213,7 +223,8 @@ def j1(fam, sim, seed, num, depth, timeout):
 def run_harness(vh, fam, work, nodes, alpha, expand, seed, shards, reps):
     c = FAMILIES[fam]
     wcfg = dict(tenants=c["Tenants"], providers=c["Providers"], auditors=c["Auditors"], initCoins=c["InitCoins"],
-                minDeposit=c["MinDeposit"], bidMinDeposit=c["BidMinDeposit"], orderMaxBids=c.get("OrderMaxBids", 20))
+                minDeposit=c["MinDeposit"], bidMinDeposit=c["BidMinDeposit"], orderMaxBids=c.get("OrderMaxBids", 20),
+                foreignCoins=3 if c.get("Variants") else 0)
     json.dump(wcfg, open(os.path.join(work, "world.json"), "w"))
     # every shard gets its own slice of the exported states (a path carries its ancestors), so no process holds them all
     for i in range(shards):
